@@ -567,8 +567,7 @@ def run(tier):
                                      "current, already used value and the record sequence number restarts at 0 under the same key" % (ln, extra or "none - but not under `%s`" % pname),
                                      file=itb.relfile, line=ln)
                     res.instance("C17.R2", "incrTwoByte:%s load from largestEpoch under exactly `%s`" % (ln, pname), ok2, finding=f2)
-    if nld == 0:
-        raise AnalysisBroken("C17.R2: incrTwoByte no longer loads from largestEpoch")
+    # (no load at all is the violation reported by the dependency instance above, not a broken analysis)
     # ... and only when sending (the read-side expectedEpoch must not jump)
     # dtlsResendFlight: the rsn restore is on the ChangeCipherSpec-resend path before the re-encode
     rf = prog.fn("dtlsResendFlight", required=False)
